@@ -40,8 +40,8 @@ def budget(tier):
     return {"examples": 250 if tier == "quick" else 600, "shards": 1 if tier == "quick" else 16}
 
 
-def rf_cfg(ci):
-    return {"kind": "i", "size": 2, "order": "<", "cplx": 1, "form": "struct", "nsub": 1, "n": 100, "d": 1, "F": 1000, "S": 10,
+def rf_cfg(ci, F=1000):
+    return {"kind": "i", "size": 2, "order": "<", "cplx": 1, "form": "struct", "nsub": 1, "n": 100, "d": 1, "F": F, "S": 10,
             "cont": 0, "comp": 0, "checksum": 0, "salt": 7 + ci, "uuid": "verif", "start": T0 * 100 + 130 + ci}
 
 
@@ -70,7 +70,8 @@ def _cases(draw, tier):
     # perturbations
     out = []
     for stp in steps:
-        mode = draw(st.sampled_from(["ok"] * 6 + ["dup", "dup", "stale", "drop", "vanished", "replay", "startup", "late", "late"]))
+        mode = draw(st.sampled_from(["ok"] * 6 + ["dup", "dup", "stale", "drop", "vanished", "replay", "startup", "late", "late"] +
+                                    (["prune"] if stp[0] == "rf" else [])))
         out.append({"op": stp, "p": mode})
     if draw(st.integers(0, 2)) == 0:
         out.append({"op": ["end"], "p": draw(st.sampled_from(["replay", "startup"]))})
@@ -93,6 +94,12 @@ def _cases(draw, tier):
     case["naive"] = draw(st.booleans())
     # how the mirror is built: the class, or the command line (drf mirror cp|mv|ln SRC DEST ...); `--link` / link=True with
     # the copy method means "hard links where possible" - for content and completeness the same as copying
+    # sub-second file cadences (file names with a non-zero millisecond part) and window edges off the whole second
+    case["F"] = draw(st.sampled_from([1000, 1000, 500, 250]))
+    if case["F"] != 1000:
+        for key in ("start", "end"):
+            if case[key] is not None:
+                case[key] = (case[key] - T0 * 1000) * case["F"] // 1000 + T0 * 1000 + draw(st.sampled_from([0, 0, 250, 500, 750, 1, 249]))
     case["ctor"] = draw(st.sampled_from(["api", "api", "cli"]))
     case["linkflag"] = case["method"] == "copy" and draw(st.booleans())
     return case
@@ -117,6 +124,10 @@ def directed_cases(tier):
                 out.append({"chans": [{"nfiles": 6, "gap_at": 3, "nmd": 3}], "steps": [dict(s_) for s_ in steps], "method": method,
                             "xdev": False, "include_drf": True, "include_dmd": True, "start": start, "end": end, "fault": None,
                             "naive": naive})
+        # 250 ms files, window edges at T0 + 0.2 s and T0 + 1.1 s
+        out.append({"chans": [{"nfiles": 6, "gap_at": 3, "nmd": 3}], "steps": [dict(s_) for s_ in steps], "method": method,
+                    "xdev": False, "include_drf": True, "include_dmd": True, "start": T0 * 1000 + 200, "end": T0 * 1000 + 1100, "fault": None,
+                    "naive": False, "F": 250})
     return out
 
 
@@ -139,6 +150,7 @@ class World:
         self.fault_at = None  # index of the destination rename that fails (once)
         self.renames = 0
         self.faulted = set()  # relpaths (under dest) whose publishing rename was made to fail
+        self.pruned = set()  # relpaths that a downstream consumer has taken out of the destination
         self.fail = None
         self.checks = 0
         self.move = False
@@ -175,6 +187,8 @@ class World:
         # (ii) no loss of RF data files in move mode
         if self.move:
             for rel, h in self.rf_final.items():
+                if rel in self.pruned:
+                    continue  # delivered, and taken away by the consumer downstream
                 cands = [os.path.join(self.src, rel), os.path.join(self.dest, rel),
                          os.path.join(self.dest, os.path.dirname(rel), "tmp." + os.path.basename(rel))]
                 ok = False
@@ -200,7 +214,7 @@ class World:
                 d = os.path.join(self.dest, rel)
                 dt = os.path.join(self.dest, os.path.dirname(rel), "tmp." + os.path.basename(rel))
                 try:
-                    same = os.path.isfile(d) and sha(d) == sha(removing)
+                    same = (os.path.isfile(d) and sha(d) == sha(removing)) or rel in self.pruned
                     if not same and rel in self.faulted:
                         # the publishing rename was made to fail: the intact copy sits under its tmp. name
                         same = os.path.isfile(dt) and sha(dt) == sha(removing)
@@ -315,10 +329,11 @@ def _run(case, res, base, stage, src, dest, ev, drf, list_drf, mirror):
     mdw = {}
     md_model = {}
     for ci, ch in enumerate(case["chans"]):
-        cfg = rf_cfg(ci)
-        n1 = ch["gap_at"] * 100 - 30
-        n2 = (ch["nfiles"] - ch["gap_at"]) * 100 - 70
-        ops = [{"op": "w", "idx": 0, "len": n1}, {"op": "w", "idx": ch["gap_at"] * 100 - 30 + 40, "len": max(1, n2 - 40)}]
+        cfg = rf_cfg(ci, case.get("F", 1000))
+        spf = 100 * cfg["F"] // 1000  # samples per file (100 Hz)
+        n1 = ch["gap_at"] * spf - 3 * spf // 10
+        n2 = (ch["nfiles"] - ch["gap_at"]) * spf - 7 * spf // 10
+        ops = [{"op": "w", "idx": 0, "len": n1}, {"op": "w", "idx": n1 + 4 * spf // 10, "len": max(1, n2 - 4 * spf // 10)}]
         with rfharness.quiet_fds():
             rfharness.run_python(cfg, ops, os.path.join(stage, "ch%d" % ci))
         m = rfmodel.Model(cfg)
@@ -438,6 +453,21 @@ def _run(case, res, base, stage, src, dest, ev, drf, list_drf, mirror):
                 elif op[0] == "rf":
                     ci, i = op[1], op[2]
                     rel = "ch%d/%s" % (ci, stage_files[ci][i])
+                    if pert == "prune":
+                        # a consumer downstream (another mirror in move mode, an archiver) has taken the delivered RF files
+                        # and removed the emptied time-stamped subdirectories of this channel from the destination
+                        active[0] = False
+                        chd_ = os.path.join(dest, "ch%d" % ci)
+                        for sub_ in (sorted(os.listdir(chd_)) if os.path.isdir(chd_) else []):
+                            sp_ = os.path.join(chd_, sub_)
+                            if os.path.isdir(sp_) and sub_ != "metadata":
+                                names_ = os.listdir(sp_)
+                                if any(f_.startswith("tmp.") for f_ in names_):
+                                    continue  # (a staged file of a faulted publication stays where it is)
+                                for f_ in names_:
+                                    world.pruned.add(os.path.join("ch%d" % ci, sub_, f_))
+                                shutil.rmtree(sp_)
+                        active[0] = True
                     fin = os.path.join(src, rel)
                     tmp = os.path.join(os.path.dirname(fin), "tmp." + os.path.basename(fin))
                     active[0] = False
@@ -567,6 +597,8 @@ def _run(case, res, base, stage, src, dest, ev, drf, list_drf, mirror):
 
     tmpleft = [p for p in present if os.path.basename(p).startswith("tmp.") and not _is_faulted_tmp(p)]
     sel -= world.faulted  # a file whose publishing rename failed may legitimately be missing (it must not be LOST)
+    sel -= world.pruned   # delivered once and taken away downstream (a later event may or may not deliver it again)
+    maybe |= world.pruned
     maybe |= world.faulted
     if world.faulted:
         res.cls("injected-rename-fault")
